@@ -31,6 +31,7 @@ class Sched:
         self.violation = None
         self.on_timeout = on_timeout
         self.timeouts = 0
+        self.big_frame = None
 
     # ------------------------------------------------------------------ threads
     def spawn(self, name, fn):
@@ -42,7 +43,10 @@ class Sched:
                     self.cv.wait()
             sys.settrace(self._tracer)
             try:
-                fn()
+                if self.big_frame is not None:
+                    self.big_frame(lambda _: fn(), None)   # see vlib.runner._big_frame (performance only)
+                else:
+                    fn()
             except StepBudget:
                 st['exc'] = 'step-budget'
             except BaseException as e:  # noqa
